@@ -213,7 +213,15 @@ def gen_expr(rng, depth, allow_findings=False):
 
 
 UNSUPPORTED = ["-Tgas*2.0", "Tgas*-invT", "exp(-Tgas)", "Tgas - -invT", "(Tgas", "Tgas)", "2.0**", "*2.0", "Tgas**", "1.0e-10 * * Tgas",
-               "sqrt()", "n(idx_)", "1.0 2.0", "Tgas ^ 2", "Tgas % 2", "1.0e", "1.0d-10 *", "exp(Tgas", "2.0 +", "a = 2.0", "Tgas > 10.0", ".5*Tgas", "Tgas!"]
+               "sqrt()", "n(idx_)", "1.0 2.0", "Tgas ^ 2", "Tgas % 2", "1.0e", "1.0d-10 *", "exp(Tgas", "2.0 +", "a = 2.0", "Tgas > 10.0", ".5*Tgas", "Tgas!",
+               # literals whose exponent is detached from the mantissa, doubled or double-signed: no Fortran literal
+               "2.06 e-10*Tgas**(0.396)", "2.5E 3*Tgas", "4.0e -3*Tgas", "1.0e-3e2*Tgas", "1e+-3*Tgas", "1.5d 2*Tgas", "3.0d-10d2*Tgas", "2.0e*Tgas"]
+
+
+# not Fortran at all (a blank inside a literal, two exponents, two signs, an exponent without digits): these must be rejected,
+# there is no value they could keep
+NOT_FORTRAN = {"2.06 e-10*Tgas**(0.396)", "2.5E 3*Tgas", "4.0e -3*Tgas", "1.0e-3e2*Tgas", "1e+-3*Tgas", "1.5d 2*Tgas", "3.0d-10d2*Tgas", "2.0e*Tgas",
+               "1.0 2.0", "1.0e", "2.0**", "*2.0", "(Tgas", "Tgas)", "1.0e-10 * * Tgas", "sqrt()", "exp(Tgas", "2.0 +", "1.0d-10 *"}
 
 
 def bundled_rates():
@@ -239,6 +247,11 @@ def check_rate(res, model, rate, tag, rng, expect_reject=False):
     res.count("accepted" if out is not None else "rejected")
     if out is None:
         res.case(("c12", tag, rate), nontrivial=False)
+        return
+    if rate in NOT_FORTRAN:
+        res.violation("oracle", f"{rate!r} is no Fortran expression (malformed literal or syntax) but it is accepted and translated to {out!r} "
+                                f"instead of being rejected at generation time", case)
+        res.case(("c12", tag, rate), nontrivial=True)
         return
     if expect_reject:
         res.count("unsupported-shape accepted (checked by value)")
